@@ -43,6 +43,7 @@ type contender struct {
 	am     *tso.AllocatorManager
 	alloc  tso.Allocator
 	ida    id.Allocator
+	ownEnd uint64 // the end of the id window this member last reserved durably itself
 	km     *encryptionkm.KeyManager
 	cancel context.CancelFunc // keep-alive
 	delay  int64              // ns by which the next lease keep-alive reply is delayed (atomic); later keep-alives are lost
@@ -244,7 +245,7 @@ func one(e *etcdgate.Etcd, plain *clientv3.Client, bi int, beh []cli.Step) ([]tr
 		}
 		m := st.Str(0)
 		c := cs[m]
-		ev := trace.Ev{"ev": st.Action, "beh": bi, "step": si, "m": m, "res": "ok", "rec_before": owner(), "stored_before": stored()}
+		ev := trace.Ev{"ev": st.Action, "beh": bi, "step": si, "m": m, "res": "ok", "rec_before": owner(), "stored_before": stored(), "served_max": 0, "own_end": 0}
 		switch st.Action {
 		case "Campaign":
 			if err := c.mem.CampaignLeader(ttl); err != nil {
@@ -336,6 +337,31 @@ func one(e *etcdgate.Etcd, plain *clientv3.Client, bi int, beh []cli.Step) ([]tr
 				err = c.mem.DeleteMemberDCLocationInfo(1)
 			case "idwindow":
 				err = c.ida.Rebase()
+				if err == nil {
+					if v, perr := strconv.ParseUint(get(root+"/alloc_id"), 16, 64); perr == nil {
+						c.ownEnd = v
+					}
+				} else {
+					// a member whose window write was refused goes on allocating (callers retry): it may use up what it
+					// reserved itself while it was the leader, never an id beyond that
+					var maxID uint64
+					n := 0
+					for ; n < 1200; n++ {
+						v, aerr := c.ida.Alloc()
+						if aerr != nil {
+							break
+						}
+						if v > maxID {
+							maxID = v
+						}
+					}
+					ev["served_after_refusal"], ev["served_max"], ev["own_end"] = n, int(maxID), int(c.ownEnd)
+					if owner() == c.name {
+						if v, perr := strconv.ParseUint(get(root+"/alloc_id"), 16, 64); perr == nil {
+							c.ownEnd = v
+						}
+					}
+				}
 			case "keys":
 				// the encryption key manager rotates/saves the data keys through a leader-guarded transaction on a key
 				// that is not under the cluster root: one such write at a time across the parallel behaviours
